@@ -49,6 +49,11 @@ func TestWorker(t *testing.T) {
 		runBatch(t, prop, scen, seed, idx, envInt("VERIF_COUNT", 1))
 		return
 	}
+	// no garbage collection during a run (unless the heap approaches 1 GiB): a collection empties sync.Pool, the
+	// next Get then takes the constructor's path through instrumented code, and when collections happen depends on
+	// the machine - a run's schedule must not
+	debug.SetGCPercent(-1)
+	debug.SetMemoryLimit(1 << 30)
 	var tape *verifsim.Tape
 	if f := os.Getenv("VERIF_REPLAY"); f != "" {
 		b, err := os.ReadFile(f)
